@@ -16,13 +16,15 @@ RULE = (
     "of >= 2 descriptor types; distinct by (input, stream)."
 )
 ASSUMPTIONS = ["non-single descriptors are not generable on this tree (known C02 finding), so =/# bonds are driven through attach_other directly"]
-FLOORS = {"quick": {"contract.attach_other.post": 8000, "molecules_audited": 800, "hostile_calls": 300, "distinct_nontrivial": 300}, "thorough": {"contract.attach_other.post": 150000, "hostile_calls": 5000}}
+FLOORS = {"quick": {"contract.attach_other.post": 8000, "molecules_audited": 800, "hostile_calls": 300, "badlist_generations": 200, "distinct_nontrivial": 300}, "thorough": {"contract.attach_other.post": 150000, "hostile_calls": 5000}}
 
 
 def plan(tier, seed):
     cases = G.plan_common(tier, seed, 60 if tier == "quick" else 1200, 40 if tier == "quick" else 400)
     for i in range(8 if tier == "quick" else 100):
         cases.append({"kind": "hostile", "seed": seed * 1000211 + i, "n": 60})
+    for i in range(8 if tier == "quick" else 100):
+        cases.append({"kind": "badlist", "seed": seed * 1000231 + i, "n": 10})
     return cases
 
 
@@ -133,9 +135,65 @@ def hostile(case):
     return {"viol": G.dedupe(viol), "cnt": dict(cnt), "nt": [], "sample": sample}
 
 
+def badlists(case):
+    """transition lists that put weight on an INCOMPATIBLE descriptor: generation must refuse (raise) whenever that
+    entry is drawn and may never bond the pair"""
+    from .. import gen
+    from .. import workloads as W
+    from ..ast import StochAst
+    from ..monitors import trace
+    from ..ref.compat import compat
+
+    rng = random.Random(case["seed"])
+    cnt = collections.Counter()
+    viol = []
+    sample = None
+    for k in range(case["n"]):
+        try:
+            subj = W.Subject(case["seed"] * 53 + k, arch=rng.choice(["random", "endinit", "alternating", "stepgrowth", "star"]), small=True, mean_units=3)
+        except ValueError:
+            continue
+        ast = subj.ast
+        done = False
+        for e in ast.elements:
+            if isinstance(e, StochAst) and not done:
+                descs = e.all_descs()
+                reps = [x for x in descs if x[1] == "repeat"]
+                d = rng.choice(reps)[0]
+                lst = [float(rng.choice([1, 2])) if compat(d.triple, o.triple) and okind == "repeat" else 0.0 for o, okind, _, _ in descs]
+                bad = [i for i, (o, okind, _, _) in enumerate(descs) if not compat(d.triple, o.triple)]
+                if bad and sum(lst) > 0:
+                    lst[rng.choice(bad)] = float(rng.choice([1, 3]))
+                    d.weight = lst
+                    done = True
+        if not done:
+            continue
+        text = ast.to_text()
+        import gbigsmiles
+
+        try:
+            M = gbigsmiles.Molecule(text)
+        except Exception:
+            continue
+        for gi in range(6):
+            obs = W.observe_generation(M, W.spy(case["seed"] * 17 + k * 7 + gi), budget=3000)
+            cnt["badlist_generations"] += 1
+            cnt["badlist_raised" if obs["status"] == "exc" else "badlist_returned"] += 1
+            for v in obs["violations"]:
+                if v["cls"].startswith("c04."):
+                    viol.append(dict(v, text=text, label="badlist"))
+        if sample is None:
+            sample = {"list_addressing_incompatible_descriptor": text}
+    cnt.update(trace.take_counters())
+    cnt["evaluations"] = cnt["badlist_generations"]
+    return {"viol": G.dedupe(viol), "cnt": dict(cnt), "nt": [], "sample": sample}
+
+
 def run_case(case):
     if case["kind"] == "hostile":
         return hostile(case)
+    if case["kind"] == "badlist":
+        return badlists(case)
     out = G.run_common("c04", case)
     from ..monitors import trace
 
